@@ -1090,7 +1090,7 @@ impl Prop for C13 {
     }
     fn case_count(&self, tier: Tier) -> u64 {
         match tier {
-            Tier::Quick => 1200,
+            Tier::Quick => 1400,
             Tier::Thorough => 12000,
         }
     }
@@ -1124,8 +1124,8 @@ impl Prop for C13 {
         if rng.chance(1, 30) {
             return gen_huge_case(rng);
         }
-        // quick: ~1 in 12 cases is a first-touch race; thorough: 1 in 6
-        if rng.chance(1, if tier == Tier::Quick { 12 } else { 6 }) {
+        // quick: ~1 in 8 cases is a first-touch race; thorough: 1 in 6
+        if rng.chance(1, if tier == Tier::Quick { 8 } else { 6 }) {
             let threads = *rng.pick(&[2u64, 2, 3, 4, 8]);
             let rounds = rng.range(1, 4);
             return first_touch_case(rng, threads, rounds);
